@@ -207,6 +207,7 @@ func runC16(c *Ctx) {
 	c16Addr(c)
 	c16Siblings(c)
 	c16URISplitOrder(c, "dependency-set")
+	ruleSplitRemainder(c, "tag-errors")
 	c.floor("dependency-set", 2)
 	c.floor("injective-join", 2)
 	c.floor("tag-errors", 12)
